@@ -1,7 +1,7 @@
 (* text group: escaping, colour stripping, codepage conversion. The code tables (the oracle of the
    Coq model) are loaded from $VDRIVER_TABLES: lines "<letter> <codepoint> <hexbytes>". *)
 let enc_tab : (int * int, n list) Hashtbl.t = Hashtbl.create 100000
-let dec_tab : (int * int list, int) Hashtbl.t = Hashtbl.create 100000
+let dec_tab : (int * int list, int list) Hashtbl.t = Hashtbl.create 100000
 let lead_tab : (int * int, bool) Hashtbl.t = Hashtbl.create 2000
 let loaded = ref false
 let load () =
@@ -17,7 +17,8 @@ let load () =
            | ["E"; l; c; h] ->
                Hashtbl.replace enc_tab (int_of_string l, int_of_string c) (bytes_of_hex h)
            | ["D"; l; h; c] ->
-               let l = int_of_string l and c = int_of_string c in
+               (* a byte sequence may decode to more than one scalar (Big5-HKSCS 88 62 = U+00CA U+0304): "c1+c2" *)
+               let l = int_of_string l and c = Stdlib.List.map int_of_string (Stdlib.String.split_on_char '+' c) in
                let ib = Stdlib.List.map int_of_n (bytes_of_hex h) in
                Hashtbl.replace dec_tab (l, ib) c;
                (match ib with [a; _] -> Hashtbl.replace lead_tab (l, a) true | _ -> ())
@@ -36,8 +37,8 @@ let dec (l : n) (bs : n list) : n list =
     | b :: t when b < 128 -> b :: go t
     | b :: t ->
         (match t with
-         | b2 :: t2 when Hashtbl.mem lead_tab (l, b) && Hashtbl.mem dec_tab (l, [b; b2]) -> Hashtbl.find dec_tab (l, [b; b2]) :: go t2
-         | _ -> (match Hashtbl.find_opt dec_tab (l, [b]) with Some c -> c :: go t | None -> 0xFFFD :: go t))
+         | b2 :: t2 when Hashtbl.mem lead_tab (l, b) && Hashtbl.mem dec_tab (l, [b; b2]) -> Hashtbl.find dec_tab (l, [b; b2]) @ go t2
+         | _ -> (match Hashtbl.find_opt dec_tab (l, [b]) with Some c -> c @ go t | None -> 0xFFFD :: go t))
   in Stdlib.List.map n_of_int (go (Stdlib.List.map int_of_n bs))
 (* strings are passed as lists of code points: "u:41,42,20ac" or "-" *)
 let cps_of s = if s = "-" then [] else Stdlib.List.map (fun x -> n_of_int (int_of_string ("0x" ^ x))) (Stdlib.String.split_on_char ',' s)
